@@ -13,7 +13,7 @@ from pathlib import Path
 from typing import Literal
 
 from dippy.core.config import Config, match_redirect
-from dippy.core.allowlists import SIMPLE_SAFE, WRAPPER_COMMANDS
+from dippy.core.allowlists import SIMPLE_SAFE, WRAPPER_COMMANDS, sets_execution_var
 from dippy.cli import get_handler, get_description, HandlerContext
 from dippy.vendor.parable import parse, ParseError
 
@@ -22,29 +22,6 @@ from dippy.vendor.parable import parse, ParseError
 # absolute rule.  It is deep so that a relative path cannot climb out of it
 # with a few ".." components and land on a real absolute path.
 _UNKNOWN_CWD = Path("/nonexistent/unknown-cwd" + "/-" * 64)
-
-# Variables that decide which program runs or make a program load or run other
-# code: setting one changes what an otherwise harmless command executes
-EXECUTION_ENV_VARS = frozenset(
-    {
-        # the shell: command lookup, start-up files, tracing, word splitting
-        "PATH", "CDPATH", "HOME", "IFS", "ENV", "BASH_ENV", "SHELLOPTS", "BASHOPTS",
-        "PS4", "PROMPT_COMMAND", "BASH_FUNC", "GLOBIGNORE", "SHELL",
-        # the dynamic loader
-        "LD_PRELOAD", "LD_LIBRARY_PATH", "LD_AUDIT",
-        "DYLD_INSERT_LIBRARIES", "DYLD_LIBRARY_PATH", "DYLD_FRAMEWORK_PATH",
-        # interpreters
-        "PYTHONPATH", "PYTHONSTARTUP", "PYTHONHOME", "PYTHONINSPECT",
-        "PERL5LIB", "PERL5OPT", "PERLLIB", "RUBYLIB", "RUBYOPT",
-        "NODE_OPTIONS", "NODE_PATH", "JAVA_TOOL_OPTIONS", "_JAVA_OPTIONS",
-        # helpers that tools start
-        "PAGER", "MANPAGER", "EDITOR", "VISUAL", "BROWSER", "LESSOPEN", "LESSCLOSE",
-        "GIT_SSH", "GIT_SSH_COMMAND", "GIT_EXTERNAL_DIFF", "GIT_PAGER", "GIT_EDITOR",
-        "GIT_SEQUENCE_EDITOR", "GIT_ASKPASS", "SSH_ASKPASS", "GIT_EXEC_PATH",
-        "GIT_CONFIG_GLOBAL", "GIT_CONFIG_SYSTEM", "GIT_CONFIG_COUNT", "GIT_PROXY_COMMAND",
-        "TAR_OPTIONS", "RSYNC_RSH", "CVS_RSH",
-    }
-)
 
 # Redirect targets that are always safe (no file write)
 SAFE_REDIRECT_TARGETS = frozenset({"/dev/null", "/dev/stdout", "/dev/stdin"})
@@ -392,8 +369,8 @@ def _analyze_command(
         if _substitutions_lost(word_value, word):
             decisions.append(Decision("ask", "substitution not analysed"))
         if position < base_idx:
-            name = re.match(r"[A-Za-z_][A-Za-z0-9_]*", words[position]).group(0)
-            if name in EXECUTION_ENV_VARS:
+            name = sets_execution_var(words[position])
+            if name:
                 decisions.append(Decision("ask", f"sets {name}"))
         if not parts and (
             position < base_idx
